@@ -140,7 +140,12 @@ class ZipReader(AbstractReader):
                     members[innerFilename].extend(ref)
 
             else:
-                mtime = time.mktime(datetime.datetime(*member.date_time[:6]).timetuple())
+                try:
+                    mtime = time.mktime(datetime.datetime(*member.date_time[:6]).timetuple())
+
+                except (ValueError, OverflowError):
+                    # no such date (a zeroed time stamp): as old as can be
+                    mtime = 0
 
                 members[filename] = [[fileObj, member.filename, mtime]]
 
